@@ -240,6 +240,8 @@ structure PoolRefines (p : Pool) (s : SP) : Prop where
   cond : condSpec p.cond = s.cond
   condGen : p.condGen = p.gen
   classObs : p.classObs = p.classGen
+  /-- the NodeClass generation the specification speaks about is the one of the NodeClass object -/
+  classGen : p.classGen = s.classGen
   nonempty : s.cond ≠ .unknown → s.log ≠ []
 
 theorem dry_status (t : Tracker) (log : List Bool) (ok : Bool) (h : Refines t log) :
@@ -282,11 +284,11 @@ theorem reconcile_idle (p : Pool) (s : SP) (h : PoolRefines p s) : reconcile p =
   simp_all
 
 theorem reconcile_reset (p : Pool) (log : List Bool) (h : Refines p.t log) (hr : needsReset p = true) :
-    PoolRefines (reconcile p) { cond := .unknown, log := [] } := by
+    PoolRefines (reconcile p) (Karp.Spec.PoolHealth.S.forget p.classGen) := by
   unfold reconcile
   simp only [hr, if_true]
   obtain ⟨log', hl⟩ := hydrate_refines p log h
-  exact ⟨refines_reset _ _ hl, rfl, rfl, rfl, rfl, by simp⟩
+  exact ⟨refines_reset _ _ hl, rfl, rfl, rfl, rfl, rfl, by simp [Karp.Spec.PoolHealth.S.forget]⟩
 
 
 theorem tracker_new_unknown : Tracker.new.status = .unknown := by decide
@@ -325,6 +327,16 @@ theorem fact_liveness_branches :
     behind finding `C20-success-lost-on-nodepool-api-failure` (the model's `registrationStep` follows it) -/
 theorem fact_registered_before_counted :
     Karp.Gen.Health.registrationCalls = ["SetTrue", "updateNodePoolRegistrationHealth"] := by decide
+
+/-- every controller that writes a NodePool's `status.conditions` (nodepool.readiness, nodepool.registrationhealth,
+    nodepool.validation, and the two `updateNodePoolRegistrationHealth` of the lifecycle controller) issues exactly one
+    status patch and builds it with the optimistic lock: a JSON merge patch replaces the condition list as a whole, so
+    a writer working from an out-of-date NodePool must be answered 409 instead of writing an old
+    `NodeRegistrationHealthy` back (the model treats those writers as `Ev.noise`; c20.pool's Y events replay
+    nodepool.readiness from lagging copies on the real controller) -/
+theorem fact_condition_writers_optimistic_lock :
+    Karp.Gen.Health.conditionWriters.length = 5 ∧
+    Karp.Gen.Health.conditionWriters.all (fun w => w.2 == ["optimistic-lock"]) = true := by decide
 
 theorem step_success (p : Pool) (f : Fault) : Karp.PoolHealth.step p (.success f) = registeredF p f := by
   cases f
@@ -411,7 +423,7 @@ theorem registered_refines (p : Pool) (s : SP) (h : PoolRefines p s) :
     PoolRefines (registered p) (Karp.Spec.PoolHealth.recordSuccess s) := by
   have hd := dry_status p.t s.log true h.tr
   simp only [Karp.Spec.PoolHealth.recordSuccess, registered, recordSuccess, hd, specHealth_eq]
-  refine ⟨refines_insert _ _ _ h.tr, by simp [h.present], ?_, ?_, h.classObs, by simp⟩
+  refine ⟨refines_insert _ _ _ h.tr, by simp [h.present], ?_, ?_, h.classObs, h.classGen, by simp⟩
   · have hc := h.cond
     cases hh : Karp.Spec.PoolHealth.healthOf (s.log ++ [true]) <;> simp [toStatus, hc] <;> rfl
   · cases hh : Karp.Spec.PoolHealth.healthOf (s.log ++ [true]) <;> simp [toStatus, h.condGen]
@@ -420,7 +432,7 @@ theorem timedOut_refines (p : Pool) (s : SP) (h : PoolRefines p s) :
     PoolRefines (timedOut p) (Karp.Spec.PoolHealth.recordFailure s) := by
   have hd := dry_status p.t s.log false h.tr
   simp only [Karp.Spec.PoolHealth.recordFailure, timedOut, recordFailure, hd, specHealth_eq]
-  refine ⟨refines_insert _ _ _ h.tr, by simp [h.present], ?_, ?_, h.classObs, by simp⟩
+  refine ⟨refines_insert _ _ _ h.tr, by simp [h.present], ?_, ?_, h.classObs, h.classGen, by simp⟩
   · have hc := h.cond
     cases hh : Karp.Spec.PoolHealth.healthOf (s.log ++ [false]) <;> simp [toStatus, h.cond]
     by_cases hf : p.cond = Cond.false_
@@ -465,7 +477,7 @@ theorem registeredF_refines (p : Pool) (s : SP) (f : Fault) (h : PoolRefines p s
       simpa [registeredF, hp, hl] using registered_refines p s h
 
 theorem reconcileF_refines (p : Pool) (log : List Bool) (f : Fault) (h : Refines p.t log) (hr : needsReset p = true) :
-    PoolRefines (reconcileF p f) { cond := .unknown, log := [] } := by
+    PoolRefines (reconcileF p f) (Karp.Spec.PoolHealth.S.forget p.classGen) := by
   unfold reconcileF
   by_cases hf : f = .patch
   · simp only [hf, hr, and_self, if_true]
@@ -473,6 +485,14 @@ theorem reconcileF_refines (p : Pool) (log : List Bool) (f : Fault) (h : Refines
     exact reconcile_reset _ [] (refines_reset _ _ hl) (by simpa [needsReset] using hr)
   · simp only [hf, false_and, if_false]
     exact reconcile_reset p log h hr
+
+/-- a NodeClass object that carries the generation observed before: the reconcile it triggers changes nothing,
+    whatever fault is armed (no patch is issued) -/
+theorem step_classReplace_same (p : Pool) (s : SP) (f : Fault) (h : PoolRefines p s) :
+    Karp.PoolHealth.step p (.classReplace p.classGen f) = p := by
+  have hp : ({ p with classGen := p.classGen } : Pool) = p := rfl
+  simp only [Karp.PoolHealth.step, hp, reconcileF, needsReset_idle p s h, reconcile_idle p s h]
+  simp
 
 /-- **C20_pool_step_known** — every event (any timing of the controller's looks, any failed NodePool call
     followed by its retry) keeps the controllers' view in step with the operator-level specification,
@@ -523,16 +543,32 @@ theorem C20_pool_step_known (p : Pool) (s : SP) (e : Ev) (h : PoolRefines p s) :
     simpa [Karp.PoolHealth.step, Karp.Spec.PoolHealth.stepKnown, Karp.Spec.PoolHealth.lost,
       Karp.Spec.PoolHealth.step, reconcile_idle p s h] using h
   | poolEdit f =>
-    exact reconcileF_refines _ s.log f h.tr (by simp [needsReset, h.condGen])
+    have := reconcileF_refines { p with gen := p.gen + 1 } s.log f h.tr (by simp [needsReset, h.condGen])
+    simpa [Karp.PoolHealth.step, Karp.Spec.PoolHealth.stepKnown, Karp.Spec.PoolHealth.lost,
+      Karp.Spec.PoolHealth.step, h.classGen] using this
   | classEdit f =>
-    exact reconcileF_refines _ s.log f h.tr (by simp [needsReset, h.classObs])
+    have := reconcileF_refines { p with classGen := p.classGen + 1 } s.log f h.tr (by simp [needsReset, h.classObs])
+    simpa [Karp.PoolHealth.step, Karp.Spec.PoolHealth.stepKnown, Karp.Spec.PoolHealth.lost,
+      Karp.Spec.PoolHealth.step, h.classGen] using this
+  | classReplace g f =>
+    by_cases hg : g = s.classGen
+    · -- a NodeClass object with the generation observed before: nothing to see, whatever fault is armed
+      have hgp : g = p.classGen := by rw [h.classGen]; exact hg
+      subst hgp
+      rw [step_classReplace_same p s f h]
+      simpa [Karp.Spec.PoolHealth.stepKnown, Karp.Spec.PoolHealth.lost, Karp.Spec.PoolHealth.step, hg] using h
+    · have hne : g ≠ p.classGen := by rw [h.classGen]; exact hg
+      have := reconcileF_refines { p with classGen := g } s.log f h.tr
+        (by simp [needsReset, h.classObs, Ne.symm hne])
+      simpa [Karp.PoolHealth.step, Karp.Spec.PoolHealth.stepKnown, Karp.Spec.PoolHealth.lost,
+        Karp.Spec.PoolHealth.step, hg] using this
   | restart =>
     have hn : needsReset { p with t := Tracker.new } = false := by
       simp [needsReset, h.present, h.condGen, h.classObs]
     simp only [Karp.PoolHealth.step, Karp.Spec.PoolHealth.stepKnown, Karp.Spec.PoolHealth.lost,
       Karp.Spec.PoolHealth.step, reconcile, hn]
     have hc := h.cond
-    refine ⟨?_, h.present, h.cond, h.condGen, rfl, ?_⟩
+    refine ⟨?_, h.present, h.cond, h.condGen, rfl, h.classGen, ?_⟩
     · simp only [hydrate, tracker_new_unknown, h.present, if_true, true_and]
       cases hp : p.cond <;> rw [hp] at hc <;> simp only [condSpec] at hc <;> rw [← hc]
       · simpa using refines_new
@@ -622,9 +658,10 @@ theorem C20_pool_run_known (es : List Ev) :
   | cons e es ih => intro p s h; exact ih _ _ (C20_pool_step_known p s e h)
 
 theorem spec_run_edit (es : List Ev) (e : Ev) (he : (∃ f, e = .poolEdit f) ∨ (∃ f, e = .classEdit f)) :
-    ∀ s0 : SP, Karp.Spec.PoolHealth.runKnown s0 (es ++ [e]) = { cond := .unknown, log := [] } := by
+    ∀ s0 : SP, (Karp.Spec.PoolHealth.runKnown s0 (es ++ [e])).cond = .unknown ∧
+      (Karp.Spec.PoolHealth.runKnown s0 (es ++ [e])).log = [] := by
   induction es with
-  | nil => intro s0; rcases he with ⟨f, he⟩ | ⟨f, he⟩ <;> subst he <;> rfl
+  | nil => intro s0; rcases he with ⟨f, he⟩ | ⟨f, he⟩ <;> subst he <;> exact ⟨rfl, rfl⟩
   | cons x xs ih => intro s0; exact ih _
 
 /-- **C20_pool_edit_forgets** — whatever happened before (any events, in particular outcomes recorded
@@ -635,11 +672,44 @@ theorem C20_pool_edit_forgets (es : List Ev) (e : Ev) (he : (∃ f, e = .poolEdi
     p.t.status = .unknown ∧ condCode p = 0 := by
   intro p
   have h : PoolRefines p (Karp.Spec.PoolHealth.runKnown .init (es ++ [e])) := C20_pool_run_known _ _ _ started_refines
-  rw [spec_run_edit _ e he] at h
-  refine ⟨(status_unknown_iff _ _ h.tr).mpr rfl, ?_⟩
+  obtain ⟨hcu, hlog⟩ := spec_run_edit es e he .init
+  refine ⟨(status_unknown_iff _ _ h.tr).mpr hlog, ?_⟩
   have hc := h.cond
+  rw [hcu] at hc
   simp only [condCode, h.present]
   cases hp : p.cond <;> rw [hp] at hc <;> simp [condSpec] at hc ⊢
+
+/-- **C20_pool_replace_forgets** — the NodeClass a pool launches with is replaced by an object of ANY other
+    generation — higher or LOWER than the one observed (deleted and re-created under its name: generation 1
+    again), with or without a failing status patch — : the window is empty and the condition Unknown
+    afterwards, and the launches that follow are judged on their own (`C20_pool_observations_known` from the
+    state reached).  A replacement carrying the observed generation changes nothing. -/
+theorem C20_pool_replace_forgets (p : Pool) (s : SP) (g : Nat) (f : Fault) (h : PoolRefines p s) :
+    let q := Karp.PoolHealth.step p (.classReplace g f)
+    (g ≠ s.classGen → q.t.status = .unknown ∧ condCode q = 0 ∧ q.classObs = g ∧
+        PoolRefines q (Karp.Spec.PoolHealth.S.forget g)) ∧
+    (g = s.classGen → q = p) := by
+  intro q
+  have hk : PoolRefines q (Karp.Spec.PoolHealth.stepKnown s (.classReplace g f)) := C20_pool_step_known p s _ h
+  constructor
+  · intro hg
+    have hq : PoolRefines q (Karp.Spec.PoolHealth.S.forget g) := by
+      simpa [Karp.Spec.PoolHealth.stepKnown, Karp.Spec.PoolHealth.lost, Karp.Spec.PoolHealth.step, hg] using hk
+    refine ⟨(status_unknown_iff _ _ hq.tr).mpr rfl, ?_, ?_, hq⟩
+    · have hc := hq.cond
+      simp only [condCode, hq.present]
+      cases hp : q.cond <;> rw [hp] at hc <;> simp [condSpec, Karp.Spec.PoolHealth.S.forget] at hc ⊢
+    · rw [hq.classObs, hq.classGen]; rfl
+  · intro hg
+    have hgp : g = p.classGen := by rw [h.classGen]; exact hg
+    subst hgp
+    exact step_classReplace_same p s f h
+
+/-- the reset guard compares for INEQUALITY: a NodeClass generation below the observed one resets as well
+    (`needsReset` is the model of the guard; c20.pool's D events replay it on the real controller) -/
+theorem C20_pool_guard_lower_generation (p : Pool) (h : p.classGen < p.classObs) : needsReset p = true := by
+  simp only [needsReset, Bool.or_eq_true, bne_iff_ne, ne_eq]
+  exact Or.inl (Or.inr (by omega))
 
 /-- **C20_pool_outcome_enters_window** — a success or a failure is recorded whatever the condition says
     (in particular a success while it is already True), however late the controller looks and whatever
@@ -674,6 +744,17 @@ example : Karp.PoolHealth.observations Pool.started
 example : Karp.PoolHealth.observations Pool.started
     [.failure .get, .lateSuccess .none, .slowSuccess .none, .slowSuccess .none, .launchFailure .patch, .classEdit .patch, .lateSuccess .none]
     = [[0,1,1,2],[1,1,1,2],[1,1,1,2],[1,1,1,1],[1,1,1,2],[0,0,1,1],[1,1,1,1]] := by decide
+/-- a NodeClass that was edited twice (generation 3) is deleted and re-created (generation 1) while the pool is
+    False: Unknown, empty window; the next launches are judged on their own; a second replacement with the same
+    generation changes nothing -/
+example : Karp.PoolHealth.observations Pool.started
+    [.classEdit .none, .classEdit .none, .failure .none, .failure .none, .classReplace 1 .patch, .success .none,
+     .classReplace 1 .none, .failure .none]
+    = [[0,0,1,1],[0,0,1,1],[0,1,1,2],[2,2,2,2],[0,0,1,1],[1,1,1,1],[1,1,1,1],[1,1,1,2]] := by decide
+example : PoolRefines (Karp.PoolHealth.run Pool.started [.classEdit .none, .failure .none, .failure .none])
+    (Karp.Spec.PoolHealth.runKnown .init [.classEdit .none, .failure .none, .failure .none]) ∧
+    (1 : Nat) ≠ (Karp.Spec.PoolHealth.runKnown .init [.classEdit .none, .failure .none, .failure .none]).classGen :=
+  ⟨C20_pool_run_known _ _ _ started_refines, by decide⟩
 /-- the hypothesis of the `_partial` theorems is met by scripts with faults and odd timing -/
 example : Karp.Spec.PoolHealth.noLoss .init
     [.failure .patch, .lateSuccess .none, .failure .get, .success .patch, .slowSuccess .none, .poolEdit .patch] = true := by decide
